@@ -205,16 +205,19 @@ var quotedNames = []string{"a", "b c", "Col 2", "ä", "x,y", "a(b)", "sel;ect", 
 	// blanks at the ends belong to the name
 	" padded ", "trail ", " lead", "\ttab", "nl\n"}
 
-func TestC19(t *testing.T) {
-	rapid.Check(t, func(t *rapid.T) {
-		if rapid.IntRange(0, 2).Draw(t, "mode") > 0 {
-			c19RoundTrip(t)
-		} else if hx.Rarely(t, 6, "untypable") {
-			c19Untypable(t)
-		} else {
-			c19ResultSet(t)
-		}
-	})
+func TestC19(t *testing.T) { rapid.Check(t, propC19) }
+
+// FuzzC19: the same property driven by coverage-guided bytes (thorough tier).
+func FuzzC19(f *testing.F) { f.Fuzz(rapid.MakeFuzz(propC19)) }
+
+func propC19(t *rapid.T) {
+	if rapid.IntRange(0, 2).Draw(t, "mode") > 0 {
+		c19RoundTrip(t)
+	} else if hx.Rarely(t, 6, "untypable") {
+		c19Untypable(t)
+	} else {
+		c19ResultSet(t)
+	}
 }
 
 func c19RoundTrip(t *rapid.T) {
